@@ -22,11 +22,12 @@ json.dump({"Replace":rep},open(os.path.join(work,'ov.json'),'w'))
 print("overlay files:",[os.path.relpath(k,'/repo') for k in rep])
 PY
 export VERIF_OVERLAY="$work/ov.json"
+export VERIF_EVIDENCE_DIR="$work/evidence"
 bin="$work/check"
 cd /verif/mc && go build -overlay "$VERIF_OVERLAY" -o "$bin" ./cmd/check || { echo "BUILD FAILED"; exit 2; }
 for id in "$@"; do
   t0=$(date +%s)
-  out=$("$bin" "$id" --tier "$tier" 2>&1); code=$?
+  out=$("$bin" "$id" --tier "$tier" $MUTOV_ARGS 2>&1); code=$?; [ -n "$MUTOV_VERBOSE" ] && echo "$out" | tail -${MUTOV_VERBOSE}
   t1=$(date +%s)
   nv=$(echo "$out" | grep -c '^VIOLATION')
   first=$(echo "$out" | grep -A1 '^VIOLATION' | sed -n 2p | cut -c1-300)
